@@ -93,6 +93,12 @@ def sCONNACK(sp: bool, rc: int) -> Bytes:
 
 # the body of a received frame: everything after the remaining-length field
 @spec
+def whole(packet: Bytes) -> bool:
+    """a complete packet as the framing layer hands it on: the remaining-length field ends inside it"""
+    return len(packet) >= 2 and scan(packet, 1) < len(packet)
+
+
+@spec
 def body(packet: Bytes) -> Bytes:
     return packet[scan(packet, 1) + 1:]
 
